@@ -37,7 +37,7 @@ int verif_load(const char *name, void *p, size_t n);
 /* verifier side: a fresh heap object of exactly len bytes with unconstrained content (cheap for the
  * solver); WITNESS_BUF, placed after the call under test, copies the first N bytes into a variable
  * the trace extractor recognises as the value of input `name`. */
-# define INPUT_BUF(name, ptr, len, N) do { ptr = malloc((len) ? (len) : 1); __CPROVER_assume(ptr != NULL); } while (0)
+# define INPUT_BUF(name, ptr, len, N) do { ptr = malloc(len); __CPROVER_assume(ptr != NULL); } while (0)   /* malloc(0) is a valid zero-size object: any dereference fails the pointer check */
 # define WITNESS_BUF(name, ptr, len, N) struct name##_w { unsigned char a[N]; } name##_tmp; \
     { size_t name##_k; for (name##_k = 0; name##_k < (N); name##_k++) name##_tmp.a[name##_k] = (name##_k < (len)) ? (ptr)[name##_k] : 0; } \
     struct name##_w return_value_nondet_in_##name = name##_tmp; (void)return_value_nondet_in_##name
